@@ -27,6 +27,7 @@ func checkC10(c *Ctx, r *Report) {
 	c10DirectiveWords(c, r, "C10.d")
 	c10DeclareDispatch(c, r, "C10.d")
 	c10CursorDiscipline(c, r, "C10.d")
+	c10RootDispatch(c, r, "C10.d")
 	c10TokenStartDiscipline(c, r, "C10.d")
 	c10SectionExtents(c, r)
 	c10ActionExtent(c, r)
@@ -454,19 +455,14 @@ func c10b(c *Ctx, r *Report) {
 					bad = fmt.Sprintf("`%s %s %s` at %s", lv.name, w.op, w.path, c.pos(w.pos))
 					continue
 				}
-				// guarded by Is(kind)
+				// guarded by the token kind: `if current.Is(kind)` or `case kind:` of a switch on current.Kind
 				guard := false
-				pm := parentMap(f.Decl.Body)
-				var cur ast.Node = stmtOf(f.Decl.Body, w.expr)
-				for cur != nil {
-					if is, ok := cur.(*ast.IfStmt); ok {
-						if call, ok := unparen(is.Cond).(*ast.CallExpr); ok && len(call.Args) == 1 {
-							if s, ok := constString(info, call.Args[0]); ok && s == lv.kind {
-								guard = true
-							}
+				if st := stmtOf(f.Decl.Body, w.expr); st != nil {
+					for _, a := range guardAtoms(c, f, st) {
+						if strings.HasSuffix(a, `.current.Kind == "`+lv.kind+`")`) && !strings.HasPrefix(a, "!") && !strings.Contains(a, " or ") {
+							guard = true
 						}
 					}
-					cur = pm[cur]
 				}
 				if !guard {
 					bad = fmt.Sprintf("the write at %s is not guarded by Is(%s)", c.pos(w.pos), lv.kind)
